@@ -13,6 +13,9 @@ Close(obs, r, unit, tol) == IF r[2] <= 20000 THEN AbsI(obs * r[2] - r[1] * unit)
                             ELSE AbsI(obs - FloorScaled(r, unit)) <= tol + 1
 \* expected values are recomputed here from the operation (the generator's own expectation is only used for the samples)
 ExpFor(c, j) == IF c.kind = "inverse" THEN [k \in 1 .. Len(c.trees[j]) |-> PtI(c.trees[j][k])]
+                ELSE IF c.kind = "pipe" THEN        \* two steps: the second acts about the root where the first left it
+                     LET r == PtI(c.trees[j][1])  r2 == Apply(Eff(c.o, r), r) IN
+                     [k \in 1 .. Len(c.trees[j]) |-> Apply(Eff(c.oi, r2), Apply(Eff(c.o, r), PtI(c.trees[j][k])))]
                 ELSE [k \in 1 .. Len(c.trees[j]) |-> Apply(Eff(c.o, PtI(c.trees[j][1])), PtI(c.trees[j][k]))]
 WhyTrees(c, o) ==
     IF Len(o.res) # Len(c.trees) THEN "result-count"
